@@ -37,6 +37,8 @@ func init() {
 			ruleC11M7(r)
 			ruleErrorsChecked(r, "M9", "/encoding/convert", 50)
 			ruleC11M13(r)
+			ruleC11M14(r)
+			ruleC11M15(r)
 		},
 	})
 }
@@ -721,4 +723,131 @@ func ruleC11M13(r *Run) {
 		})
 	}
 	r.Stat("timestamp_conversions", n)
+}
+
+// ruleC11M14: the iteration order of a map is unspecified and differs from one iteration to the next. Keys taken in
+// one iteration and values taken in another are not aligned; zipping them re-attaches every alias to some other
+// entry's value as soon as the table has two entries.
+func ruleC11M14(r *Run) {
+	r.Begin("M14", "one iteration per map: no function of the codec packages obtains both maps.Keys and maps.Values (or two separate range loops collecting into parallel slices) of the same map value", 0)
+	p := r.P
+	n := 0
+	for _, fn := range p.Funcs {
+		pk := fnPkgPath(fn)
+		if !strings.HasPrefix(pk, modPath+"/encoding") && pk != modPath+"/message" || fn.Blocks == nil {
+			continue
+		}
+		keys := map[ssa.Value]ssa.Instruction{}
+		vals := map[ssa.Value]ssa.Instruction{}
+		allInstrs(fn, func(ins ssa.Instruction) {
+			c, ok := ins.(*ssa.Call)
+			if !ok || len(c.Call.Args) == 0 {
+				return
+			}
+			o := calleeObj(&c.Call)
+			if o == nil || o.Pkg() == nil || o.Pkg().Path() != "maps" {
+				return
+			}
+			switch o.Name() {
+			case "Keys":
+				keys[canonVal(c.Call.Args[0])] = c
+			case "Values":
+				vals[canonVal(c.Call.Args[0])] = c
+			}
+		})
+		for m, kc := range keys {
+			if vc, both := vals[m]; both {
+				n++
+				r.Check(fmt.Sprintf("%s one iteration over %s", fnName(fn), m.Name()), false, posOf(p, vc), fnName(fn), "maps.Keys at "+posOf(p, kc)+" and maps.Values at "+posOf(p, vc)+" iterate the same map separately: the two orders are unrelated, a zip of the results pairs each key with another entry's value")
+			}
+		}
+	}
+	if n == 0 {
+		r.Check("separate key and value iterations", true, "", "", "no function iterates one map twice for keys and for values")
+	}
+}
+
+// ruleC11M15: "absent" is decided by the message itself, not by one of its parts. A converter that returns early with
+// a nil/zero result when a SUB-field of its argument is nil, while it converts other fields of the argument further
+// down, drops those other fields for every message that merely lacks that one part.
+func ruleC11M15(r *Run) {
+	r.Begin("M15", "an early 'absent' return tests the argument only: in package encoding/convert, where a function returns a nil result early on a condition that tests a field of its parameter for nil, it reads no other field of that parameter anywhere (otherwise a message lacking one part loses all its other fields)", 0)
+	p := r.P
+	n := 0
+	for _, fn := range p.Funcs {
+		if fnPkgPath(fn) != modPath+"/encoding/convert" || fn.Blocks == nil || len(fn.Params) == 0 {
+			continue
+		}
+		name := fnName(fn)
+		for _, prm := range fn.Params {
+			if _, isPtr := prm.Type().Underlying().(*types.Pointer); !isPtr {
+				continue
+			}
+			// fields of the parameter read in this function
+			fields := map[*types.Var]bool{}
+			allInstrs(fn, func(ins ssa.Instruction) {
+				if fa, ok := ins.(*ssa.FieldAddr); ok && canonVal(fa.X) == ssa.Value(prm) {
+					if f := fieldOf(fa.X.Type(), fa.Field); f != nil {
+						fields[f] = true
+					}
+				}
+			})
+			if len(fields) < 2 {
+				continue
+			}
+			allInstrs(fn, func(ins ssa.Instruction) {
+				ifs, ok := ins.(*ssa.If)
+				if !ok {
+					return
+				}
+				bo, isBo := ifs.Cond.(*ssa.BinOp)
+				if !isBo || (bo.Op != token.EQL && bo.Op != token.NEQ) {
+					return
+				}
+				var tested ssa.Value
+				if isNilConst(bo.Y) {
+					tested = bo.X
+				} else if isNilConst(bo.X) {
+					tested = bo.Y
+				}
+				ld, isLd := tested.(*ssa.UnOp)
+				if tested == nil || !isLd || ld.Op != token.MUL {
+					return
+				}
+				fa, isFA := ld.X.(*ssa.FieldAddr)
+				if !isFA || canonVal(fa.X) != ssa.Value(prm) {
+					return
+				}
+				nilSucc := ifs.Block().Succs[0]
+				if bo.Op == token.NEQ {
+					nilSucc = ifs.Block().Succs[1]
+				}
+				// does the nil edge return a nil/zero result straight away?
+				early := false
+				for _, x := range nilSucc.Instrs {
+					if ret, isRet := x.(*ssa.Return); isRet {
+						rs := retResults(ret)
+						if len(rs) > 0 && isNilConst(rs[0]) {
+							early = true
+						}
+					}
+				}
+				if !early {
+					return
+				}
+				n++
+				f := fieldOf(fa.X.Type(), fa.Field)
+				others := 0
+				for g := range fields {
+					if g != f {
+						others++
+					}
+				}
+				r.Check(fmt.Sprintf("%s absent-guard on %s.%s", name, prm.Name(), f.Name()), others == 0, posOf(p, ifs), name, fmt.Sprintf("the function returns nil when %s.%s is nil although it converts %d other field(s) of %s: a message that only lacks that part is decoded as absent altogether", prm.Name(), f.Name(), others, prm.Name()))
+			})
+		}
+	}
+	if n == 0 {
+		r.Check("absent-guards on sub-fields", true, "", "", "no converter returns early on a nil sub-field of its argument")
+	}
 }
